@@ -37,20 +37,24 @@ def log(*a):
 # ---------------------------------------------------------------------------
 # build
 
-def build_harness():
-    """Rebuild the harness against /repo's current working tree (hooks on)."""
+def build_harness(bins=None):
+    """Rebuild the harness against /repo's current working tree (hooks on).
+    bins: list of driver binaries this check needs (default: all of them)."""
     t0 = time.time()
     lock_src = os.path.join(REPO, "Cargo.lock")
     lock_dst = os.path.join(HARNESS, "Cargo.lock")
     if not os.path.exists(lock_dst):
         shutil.copy(lock_src, lock_dst)
     env = dict(os.environ, CARGO_NET_OFFLINE="true")
-    p = subprocess.run(["cargo", "build", "--release", "--offline"], cwd=HARNESS,
+    cmd = ["cargo", "build", "--release", "--offline"]
+    for b in bins or []:
+        cmd += ["--bin", b]
+    p = subprocess.run(cmd, cwd=HARNESS,
                        env=env, stdout=subprocess.PIPE, stderr=subprocess.STDOUT, text=True)
     if p.returncode != 0:
         # one retry with a fresh lock copy (the repo's lock may have changed)
         shutil.copy(lock_src, lock_dst)
-        p = subprocess.run(["cargo", "build", "--release", "--offline"], cwd=HARNESS,
+        p = subprocess.run(cmd, cwd=HARNESS,
                            env=env, stdout=subprocess.PIPE, stderr=subprocess.STDOUT, text=True)
     if p.returncode != 0:
         sys.stdout.write(p.stdout[-6000:])
